@@ -178,10 +178,11 @@ ListsResult(U, be) == LW!WriteUnit(U.rt, U.lt, LEnc(U.enc, be), Lp(U))
 (* file ([v |-> <<>>] is FileIndex(None)).  File tables are 1-based up to        *)
 (* version 4 (index 0 = the unit's own name) and 0-based with the primary file  *)
 (* at 0 in version 5, so the n-th added file has index n in either.             *)
-(* DEVIATION from the code: gimli writes FileId::raw(unit version), i.e. n - 1  *)
-(* for a version 5 unit whatever the version of the program; the model writes   *)
-(* the index that resolves to the file in the program's own table (n).  The two *)
-(* differ exactly for a version 5 unit with a version 2-4 program (notes/C11).  *)
+(* The index written is the one that resolves to the file in the program's own  *)
+(* table (n); gimli before 44a7660 used FileId::raw(unit version), i.e. n - 1   *)
+(* for a version 5 unit whatever the version of the program, which was wrong    *)
+(* for a version 5 unit with a version 2-4 program (notes/C11).  Refusing that  *)
+(* pair with an error is accepted as well (ProgMismatch).                       *)
 Prog(enc) == IF "prog" \in DOMAIN enc THEN enc.prog ELSE 0
 HasFile(val) == val.k = "FileIndex" /\ "f" \in DOMAIN val
 FileNames == <<<<102, 105, 114, 115, 116, 46, 99>>, <<115, 101, 99, 111, 110, 100, 46, 99>>>>     \* "first.c", "second.c"
